@@ -29,7 +29,12 @@ Definition latest_start (older : list event) (f n : nat) (a : Z) : Prop :=
 
 Definition ev_ok2 (cfg : config) (e : event) (older : list event) : Prop :=
   match e with
-  | EvDestroy c f b => c_sigfix cfg = true -> b = true
+  | EvDestroy c f b =>
+      (c_sigfix cfg = true -> b = true) /\
+      (* the result slot (a member of the Future, destroyed by ~Future after its join()) dies only after
+         the latest started call has run, once, and has stored its return value *)
+      (forall n a, latest_start older f n a ->
+         runs older f n = 1%nat /\ In (EvStore f n (c_fn cfg a)) older)
   | EvObs c i (OGet f None v) => forall n a, latest_start older f n a -> v = Some (c_fn cfg a)
   | _ => True
   end.
@@ -129,6 +134,53 @@ Proof.
   destruct (g_starts _ _ _ _ G _ _ _ _ _ _ _ _ Hs D4) as [-> _]. exact D5.
 Qed.
 
+(* events that neither start nor run a call *)
+Definition quiet_ev (e : event) : bool :=
+  match e with EvStart _ _ _ _ _ | EvRun _ _ _ _ => false | _ => true end.
+
+Lemma runs_app_quiet pre tr f n : forallb quiet_ev pre = true -> runs (pre ++ tr) f n = runs tr f n.
+Proof.
+  induction pre as [|e pre IH]; cbn [forallb app]; intro H; [reflexivity|].
+  apply andb_true_iff in H as [H1 H2]. unfold runs in *. cbn [filter].
+  destruct e; cbn in H1 |- *; try discriminate; auto.
+Qed.
+
+Lemma in_start_app_quiet pre tr c f m a wk :
+  forallb quiet_ev pre = true -> In (EvStart c f m a wk) (pre ++ tr) -> In (EvStart c f m a wk) tr.
+Proof.
+  induction pre as [|e pre IH]; cbn [forallb app]; intros H Hin; [exact Hin|].
+  apply andb_true_iff in H as [H1 H2]. destruct Hin as [E|Hin]; [subst e; discriminate|auto].
+Qed.
+
+(* the owner is past the wait of join() (or the future is not joinable): the latest call has run once
+   and its return value has been stored *)
+Lemma destroy_store_ok cfg own s tr f pre :
+  GInv cfg own s tr -> (f < c_nfut cfg)%nat ->
+  (f_phase (get_fut s f) = PhIdle \/ f_phase (get_fut s f) = PhSignalled) ->
+  forallb quiet_ev pre = true ->
+  forall n a, latest_start (pre ++ tr) f n a ->
+    runs (pre ++ tr) f n = 1%nat /\ In (EvStore f n (c_fn cfg a)) (pre ++ tr).
+Proof.
+  intros G Hf Hph Hq n a [[wk [c Hs]] Hmax].
+  apply (in_start_app_quiet _ _ _ _ _ _ _ Hq) in Hs.
+  rewrite <- (g_nfut _ _ _ _ G) in Hf.
+  destruct (g_fut _ _ _ _ G f Hf) as (_ & _ & F3 & F4 & _ & F6).
+  pose proof (F6 _ _ _ _ Hs) as Hn.
+  assert (Hd : done_b (f_phase (get_fut s f)) (f_serial (get_fut s f)) = true).
+  { destruct Hph as [-> | ->]; cbn [done_b]; [|reflexivity].
+    destruct (f_serial (get_fut s f)); [lia|reflexivity]. }
+  destruct (F4 Hd) as (ab & a0 & wk0 & w & _ & _ & _ & [c0 D4] & _ & _ & D7).
+  assert (Hle : (f_serial (get_fut s f) <= n)%nat).
+  { apply (Hmax c0 _ a0 wk0). apply in_or_app. right. exact D4. }
+  assert (En : n = f_serial (get_fut s f)) by lia. subst n.
+  destruct (g_starts _ _ _ _ G _ _ _ _ _ _ _ _ Hs D4) as [-> _].
+  split; [|apply in_or_app; right; exact D7].
+  rewrite (runs_app_quiet _ _ _ _ Hq).
+  rewrite (F3 (f_serial (get_fut s f)) ltac:(lia)).
+  rewrite Nat.ltb_irrefl, Nat.eqb_refl.
+  destruct Hph as [-> | ->]; reflexivity.
+Qed.
+
 Lemma join_or_ok2 cfg own s tr s1 t f a s' evs :
   GInv cfg own s tr -> trace_ok2 cfg tr ->
   st_futs s1 = st_futs s -> st_ring s1 = st_ring s -> nthreads s1 = nthreads s ->
@@ -146,11 +198,13 @@ Proof.
     split; [|exact T]. cbn [ev_ok2]. rewrite (get_fut_same s s1 f Hfu).
     intros n a L. eapply get_idle_ok; eauto.
   - (* destroy of a future that is not joinable *)
-    split; [|split; [exact I|exact T]]. cbn [ev_ok2]. intro Hsf.
+    split; [|split; [exact I|exact T]]. cbn [ev_ok2].
     assert (Hlt : (f < length (st_futs s))%nat) by now rewrite (g_nfut _ _ _ _ G).
     destruct (g_fut _ _ _ _ G f Hlt) as (F1 & _).
     assert (Hph : f_phase (get_fut s f) = PhIdle) by (apply phase_of_idle; now rewrite <- F1).
-    apply (unused_when_quiet cfg own s tr s1 t f G Hsf (or_introl Hph) Hr Hn Hx Ht).
+    split.
+    + intro Hsf. apply (unused_when_quiet cfg own s tr s1 t f G Hsf (or_introl Hph) Hr Hn Hx Ht).
+    + refine (destroy_store_ok cfg own s tr f [_] G Hf (or_introl Hph) _); reflexivity.
 Qed.
 
 Lemma step_ok2 cfg own s tr t clk s' evs :
@@ -210,10 +264,12 @@ Proof.
     assert (Hlt : (f < length (st_futs s))%nat) by now rewrite (g_nfut _ _ _ _ G).
     unfold finish_join in Hs. destruct a; inv_step Hs; try (apply P0; reflexivity).
     cbn [rev app]. split; [|split; [exact I|split; [exact I|exact T]]].
-    cbn [ev_ok2]. intro Hsf.
+    cbn [ev_ok2].
     pose proof (g_thr _ _ _ _ G t) as Hme. rewrite Epc in Hme. cbn [thread_ok] in Hme.
     destruct (g_fut _ _ _ _ G f Hlt) as (_ & F2 & _).
     assert (Hph : f_phase (get_fut s f) = PhSignalled) by (apply phase_of_sig; now rewrite <- F2).
+    split; [|refine (destroy_store_ok cfg own s tr f [_; _] G Hf (or_intror Hph) _); reflexivity].
+    intro Hsf.
     apply (unused_when_quiet cfg own s tr _ t f G Hsf (or_intror Hph)).
     + reflexivity.
     + reflexivity.
@@ -251,7 +307,23 @@ Theorem destructor_waits_for_worker_lemma cfg own sched :
   forall c f clean, In (EvDestroy c f clean) (snd (exec cfg sched)) -> clean = true.
 Proof.
   intros W Hsf c f b Hin. pose proof (exec_ok2 cfg own sched W) as T.
-  apply in_split in Hin as (l1 & l2 & E). rewrite E in T. apply trace_ok2_split in T. exact (T Hsf).
+  apply in_split in Hin as (l1 & l2 & E). rewrite E in T. apply trace_ok2_split in T. exact (proj1 T Hsf).
+Qed.
+
+(* The result slot of a Future<A> is a member of the object: ~Future<A> = join(), then `result` and the
+   inner Future<void> are destroyed.  When the destructor has returned (EvDestroy) the latest started
+   call has been executed, exactly once, and its return value has been stored into the result slot
+   BEFORE - the worker never writes a result slot that has been destroyed.  For the code as it is and
+   as it was (no hypothesis on c_sigfix: the late broadcast touches the Signal, not the result). *)
+Theorem result_slot_outlives_execution_lemma cfg own sched :
+  wf_cfg cfg own ->
+  forall newer c f clean older,
+    snd (exec cfg sched) = newer ++ EvDestroy c f clean :: older ->
+    forall n a, latest_start older f n a ->
+      runs older f n = 1%nat /\ In (EvStore f n (c_fn cfg a)) older.
+Proof.
+  intros W newer c f b older E. pose proof (exec_ok2 cfg own sched W) as T.
+  rewrite E in T. apply trace_ok2_split in T. exact (proj2 T).
 Qed.
 
 (* `f.join(); x = f;` and every other conversion of a future that is not joinable: the value is the
